@@ -170,7 +170,9 @@ peg::parser! {
                 let start = s.location();
                 let end = &d.loc;
                 let loc = SourceSpan::within(start, end);
-                ast::ForClauseCommand { variable_name: n.to_owned(), values: w, body: d, loc }
+                // N.B. An explicit but empty word list (`for x in; do`) means no iterations,
+                // unlike a missing `in` clause, which iterates over the positional parameters.
+                ast::ForClauseCommand { variable_name: n.to_owned(), values: Some(w.unwrap_or_default()), body: d, loc }
             } /
             s:specific_word("for") n:name() sequential_sep()? d:do_group() {
                 let start = s.location();
